@@ -494,7 +494,8 @@ def one_move(ctx, name, src_field, src_ty, dst_field, dst_ty):
 
 
 # what relaxing / restoring means for the feasibility flags is decided by the C05 flag rules
-RELIES_ON = {'C05': ['C05.flags', 'C05.lists', 'C05.rule'],
+RELIES_ON = {'C05': ['C05.flags', 'C05.lists', 'C05.rule',
+                     'C05.bound/check_bound'],     # whether a state is evaluated at all must not depend on which list a constraint is in (seed C14-20)
              # the same clause for sample sets: Instance::evaluate_samples computes `feasible` from both lists and `feasible_relaxed` from the
              # active one only; C05 does not look at evaluate_samples (seed C14-9 skipped the removed constraints there)
              'C06': ['C06.samples/constraints', 'C06.samples/removed_constraints', 'C06.samples/flags', 'C06.samples/two-lists']}
